@@ -461,12 +461,36 @@ def same_out(a, b, rtol=RTOL, shape=True, slack=None, kinds=True):
 EPS = 2.0 ** -44
 
 
+def identical(a, b, rtol=1e-12):
+    """two evaluations of the SAME object on the SAME data (same kernels, same shapes): equal up to rtol per row, inf/nan
+    patterns included"""
+    if a.ok != b.ok:
+        return False
+    if not a.ok:
+        return a.err == b.err
+    if a.space != b.space or a.shape != b.shape or len(a.rows) != len(b.rows):
+        return False
+    return all(_row_close(x, y, rtol, 0.0) for x, y in zip(a.rows, b.rows))
+
+
+def repeat_check(torch, cr, model, pts, first, what, detail, rtol=1e-12):
+    """evaluate the same object again on the same data; a difference is a property failure (the output then depends on
+    something else than the values bound to the variable names).  Returns the second answer."""
+    again = call(torch, model, pts)
+    cr.counts.append("repeat-call")
+    if not identical(first, again, rtol):
+        cr.fails.append((f"the same model object gives another output for the same input {what}",
+                         dict(detail, input=canon(torch, pts).brief(), first_call=first.brief(), later_call=again.brief())))
+    return again
+
+
 def sensitivity(torch, model, pts, base=None):
     """per row: 8 * max over two sign patterns of |model(x*(1 +- eps) +- eps) - model(x)| with eps = 2^-44 (about 256 ulp):
     what rounding-level noise in the input does to the implementation's own output.  Cubes followed by sin/quadratic
     layers reach magnitudes where one ulp of an intermediate value is a visible change of the output; such rows get a
     large slack (counted as ill-conditioned), well-conditioned rows a negligible one.  inf where it cannot be evaluated."""
-    base = base or call(torch, model, pts)
+    # always a fresh re-evaluation: a stateful object (first call differs from later ones) must not inflate the slack
+    base = call(torch, model, pts)
     n = len(base.rows) if base.ok else 0
     if not base.ok:
         return []
@@ -607,6 +631,9 @@ def run_case(case):
         base = outs["own"]
         cr.counts.append("base:" + ("ok" if base.ok else base.err))
         pts_own, _ = mk_points(tp, torch, own, dims, coords, n)
+        desc0 = dict(model=spec, torch_seed=case["seed"])
+        if base.ok:
+            repeat_check(torch, cr, model, pts_own, base, "on a later call (other presentations of the data were evaluated in between)", desc0)
         slack = sensitivity(torch, model, pts_own, base) if base.ok else None
         wild = base.ok and magnitude(torch, model, pts_own) > WILD
         if wild:
@@ -673,6 +700,8 @@ def run_case(case):
             pts, _ = mk_points(tp, torch, own, dims, coords, n)
             if not wild:
                 structure(tp, torch, cr, model, spec, pts, desc, case, slack)
+        if base.ok:
+            repeat_check(torch, cr, model, pts_own, base, "at the end of the case (after single rows, sub-batches, other orders, malformed inputs)", desc0)
         if case["idx"] % HISTORY_EVERY == 0 or case.get("force_history"):
             history(tp, torch, cr, model, spec, case)
     if case["idx"] % 2 == 1 or case.get("force_history"):
@@ -798,6 +827,8 @@ def history(tp, torch, cr, model, spec, case):
             continue
         own, _ = mk_points(tp, torch, names, dims, coords, n)
         ref = call(torch, twin, own)
+        if ref.ok:
+            repeat_check(torch, cr, twin, own, ref, "on the second call of a freshly built object", dict(desc, sub_model=sp))
         if not ref.ok or not finite(ref) or magnitude(torch, twin, own) > WILD:
             cr.counts.append("history:skipped")
             continue
@@ -899,6 +930,11 @@ def extremes(tp, torch, cr, spec, case):
             base = call(torch, model, P(X.clone(), space))
             if not base.ok:
                 cr.counts.append(tag + ":" + base.err)
+                continue
+            again = repeat_check(torch, cr, model, P(X.clone(), space), base,
+                                 f"on the second call of a freshly built object ({dtype_name}, {'training' if training else 'evaluation'} mode)",
+                                 dict(model=spec, torch_seed=case["seed"], dtype=dtype_name, training=training), rtol=rtol * 1e-2)
+            if not identical(base, again, rtol * 1e-2):
                 continue
             cr.counts.append(("ext:nonfinite-rows", sum(1 for r in base.rows if not all(x == x and abs(x) != float("inf") for x in r))))
             huge = torch.full((D,), ladder[-1], dtype=dtype)
